@@ -1,5 +1,5 @@
 """property id -> suites, evidence rule, trusted base additions"""
-from suites import props_tree, prims, monitor, legacy, c04, sk, multiround, cxx
+from suites import props_tree, prims, monitor, legacy, c04, sk, multiround, cxx, cli, files, metrics
 
 RULE_TREE = ("random operation histories (weighted words over fit / refine / recluster / set_merge / setters / "
              "delete_internal_nodes / reset / malformed fit; feature counts 1..24, 63, 64, 65, 100, 256; prototype+noise, "
@@ -66,4 +66,23 @@ PROPS: dict = {
                     "(exact rationals) of non-empty query rows compared with the model; the assignment vector is also part of the "
                     "V_out comparison of every tree history; non-trivial = fit with more than one cluster"},
     "C20": {"suites": [monitor.suite_monitor], "rule": RULE_MON, "proof_modules": ["BBProps.C20", "BBProofs.Monitor", "BBModel.Monitor"]},
+    "C16": {"suites": [files.suite_smiles, files.suite_split_merge, files.suite_fileseq, files.suite_info],
+            "rule": "`bb fps-from-smiles` as a subprocess on generated SMILES lists (1-40 entries over 1-2 .smi files, invalid entries of three "
+                    "kinds at random positions, --num-parts / --max-fps-per-file / neither, 1-8 processes, pack/no-pack, uint8/uint16/int64, "
+                    "three fingerprint kinds, skip-invalid on/off) compared with the in-process fps_from_smiles on the same strings and "
+                    "with the model's part names, part sizes and invalid indices; fps-split / fps-merge / fps-shuffle through the real "
+                    "commands on arrays of 1-257 rows x 2-101 parts / max 1-1000 per file x three dtypes x dotted names; the real "
+                    "_get_fingerprints_from_file_seq / _FingerprintFileSequence on 1-5 files incl. empty ones with sorted, repeated, empty, "
+                    "unsorted and out-of-range index lists vs the model and vs indexing the concatenation; fps-info on files and directories "
+                    "of valid and invalid shapes and dtypes; non-trivial = run with more than one SMILES / part / file",
+            "proof_modules": ["BBProps.C16", "BBProofs.FileSeq", "BBModel.FileSeq"]},
+    "C19": {"suites": [metrics.suite_indices, metrics.suite_analysis, metrics.suite_summary],
+            "rule": "CHI / DBI / Dunn of the real bblean.metrics on generated clusterings (1-6 clusters of 1-9 rows, F in {5,8,13,16,64}, incl. "
+                    "singleton clusters, duplicate rows and equal centroids) for packed and unpacked input and for three random permutations "
+                    "of clusters and rows each, compared with each other and with the model's exact values (rel 1e-9); cluster_analysis on "
+                    "generated partitions for every provider {ndarray, int64 ndarray, file, sequence of 2-4 files incl. empty ones} x "
+                    "{packed, unpacked} x top x min_size x assume_sorted, all fields compared with each other, with directly computed values "
+                    "and with the model (iSIM as exact rationals); `bb summary` on packed/unpacked x 1/2 files compared with each other "
+                    "and with the API; non-trivial = case with more than one (selected) cluster",
+            "proof_modules": ["BBProps.C19", "BBProofs.Metrics", "BBModel.Metrics"]},
 }
